@@ -41,7 +41,7 @@ class C18(Check):
                "whether two calls overlap is up to the scheduler - the round counts make a shared-buffer change fail within the "
                "first tenth of the rounds on 1..16 CPUs"]
     trusted = ["label-list view of names; labels.go equal = equality of lower-cased labels on the strings UnpackDomainName produces"]
-    shard_size = 170
+    shard_size = 190
 
     def nontrivial(self, c):
         a = c["args"]
